@@ -93,9 +93,11 @@ def unjustified(I, term, facts, depth=0, out=None):
     return out
 
 
-def sinks(I, r):
+def sinks(I, r, frame=None):
     for e in r.events:
-        if len(e.stack) != 1:
+        if frame is None and len(e.stack) != 1:
+            continue
+        if frame is not None and e.stack[-1][0] != frame:
             continue
         if e.kind == 'layout_unchecked':
             yield e, 'Layout::from_size_align_unchecked(size)', e.args[0]
@@ -132,6 +134,34 @@ def reserved_before(r, e, node):
     return False
 
 
+def in_owner_context(ctx, db, config, owner_id, helper_id, what):
+    """every unchecked node reaching sink `what` inside the inlined helper is justified by the owner's path facts, a preceding
+    reserve in the owner, or a table entry of the owner"""
+    ob = db.bodies.get(owner_id)
+    if ob is None:
+        return False
+    try:
+        I, r = arena.run_fn(ctx, owner_id, config)
+    except RecursionError:
+        return False
+    found = False
+    for e, w, term in sinks(I, r, frame=helper_id):
+        if w != what or term is None:
+            continue
+        found = True
+        for n in unjustified(I, term, set(e.state.facts)):
+            ns = norm_show(n)
+            if n[1] in ('add',) and reserved_before(r, e, n):
+                continue
+            okt = False
+            for (suffix, shape), reason in JUSTIFIED.items():
+                if owner_id.replace('std::', 'core::').endswith(suffix.replace('std::', 'core::')) and (shape is None or shape == ns) and reason:
+                    okt = True
+            if not okt:
+                return False
+    return found
+
+
 def check_size_sinks(ctx, db, config, rule='R1', scope=lambda sp: sp.startswith('src/')):
     """unchecked arithmetic reaching a size sink (shared with C13.R7 for vec.rs / raw_vec.rs)"""
     nsinks = nnodes = 0
@@ -165,6 +195,11 @@ def check_size_sinks(ctx, db, config, rule='R1', scope=lambda sp: sp.startswith(
                     if b['id'].replace('std::', 'core::').endswith(suffix.replace('std::', 'core::')) and (shape is None or shape == ns) and reason:
                         just = reason
                         used_table.add((suffix, shape))
+                if not just:
+                    # code extracted from one function: judge the operation in that function's context (inlined, with its facts and table entries)
+                    owner = arena.exclusive_owner(db, b)
+                    if owner is not None and in_owner_context(ctx, db, config, owner, b['id'], what):
+                        just = 'justified in the context of its only caller %s' % arena.short(owner)
                 if just:
                     ctx.ok(rule, '%s %s: %s' % (fn, what, ns), 'tabled invariant: ' + just)
                 else:
